@@ -202,6 +202,9 @@ class Processes:
 
         self._buffer.pop(process_name, None)
         clear_group(process_name)
+        # what was queued for this process, the tail of a half written record included,
+        # must not be the first thing a respawned process of the same name reads
+        self._write_queue.pop(process_name, None)
         self._update_fds()
         thread = Thread(target=self._terminate_run, args=(process, process_name))
         thread.start()
